@@ -109,8 +109,18 @@ func main() {
 		harnessError("%v", err)
 	}
 	t0 := time.Now()
-	for _, c := range cases {
+	// A hanging Run() costs runTimeout; after maxHangs of them the run phase stops and only the cases
+	// executed so far are emitted (the check reports every hang as a violation anyway).
+	hangs := 0
+	for i, c := range cases {
 		runCase(c, dir)
+		if c.Obs.Hang {
+			hangs++
+			if hangs >= maxHangs {
+				cases = cases[:i+1]
+				break
+			}
+		}
 	}
 	wall := time.Since(t0)
 	_ = os.RemoveAll(dir)
